@@ -14,6 +14,11 @@ def drain():
     return _verif.drain()
 
 
+# large instances only: an exception that reports the failure of the solver the harness named (cvxpy SolverError / "Optimization did not
+# converge") is loud, not a wrong result; set to True to have it reported as a violation like every other exception
+LOUD_SOLVER_FAILURE_IS_VIOLATION = False
+
+
 def run(R):
     import dreye
     from dreye.api.optimize.lsq_linear import lsq_linear_decomposition
@@ -24,7 +29,11 @@ def run(R):
               "ReceptorEstimator.fit_decomposition, equal-L1 on/off, subsampling "
               "off (None, or the function's default when the argument is omitted), on a proper part of the samples (fractions 0.5, 0.75) and on a "
               "sub-sample that covers ALL samples in random order (1.0, integer 1, 'fast', or the estimator's default when the argument is omitted), "
-              "opacity bounds (lower 0 or 0.25, upper 1 or 0.75), seeds, K/baseline. On dreye's (X, P, B_pred): bounds, mask zeros, equal layer totals, opacity "
+              "opacity bounds (lower 0 or 0.25, upper 1 or 0.75), seeds, K/baseline; plus a few LARGE sample sets per run (cases L0, L1, ...: 4097-6000 samples -- a third of them "
+              "4097-4100 --, 1-3 layers, subsampling on: 'fast' / the estimator's default = 1028 samples in the loop, or fractions 1/16, 1/8, 1/4, so the opacities of all samples are fitted last; "
+              "targets = per-sample mixtures or a noisy layered image whose true opacities exceed the opacity bounds; all predicates on all rows, the exact per-sample optimality on the 8 rows a "
+              "floating-point screening of all rows ranks worst plus 16 random rows; a large instance on which the named interior-point solver gives up with a loud SolverError is counted, must fail "
+              "identically when repeated, and is drawn again). On dreye's (X, P, B_pred): bounds, mask zeros, equal layer totals, opacity "
               "bounds, B_pred = P X A'^T + baseline, the hook-recorded loss sequence is non-increasing (within solver slack), the "
               "same seed gives the same arrays when the call is repeated with the caller's same target array (and estimator) -- directly, or after ANOTHER legitimate call on the same data "
               "in between (other seed, solver options passed through **opt_kwargs, the default solver) --, and the factor fitted last is optimal given the other: opacities by the exact KKT "
@@ -141,6 +150,81 @@ def run(R):
             drain()
             job["scs"] = dict(solver=("SCS" if spelled else "omitted"), between=betweenS, between_options=extra, between_status=(None if sb is None else sb[0]), s1=s1, s2=s2)
             c["default_solver_history"] = dict(solver=job["scs"]["solver"], between=betweenS, between_options=extra)
+    # ---- LARGE sample sets (the property does not bound the number of samples; an image has thousands of pixels): a few instances per run
+    # (own random stream) with more than 4096 samples, subsampling on -- so the intensities are fitted on a part (the estimator's default
+    # 'fast' = 1028 samples, or a fraction) and the opacities of ALL samples are fitted last --, judged like every other case; the
+    # "fitted last is optimal" clause is decided exactly on a part of the rows: random ones plus those a float screening of all rows ranks worst
+    nlarge = 2 if R.tier == "quick" else 6
+    fitted = set()
+    for li, attempt in [(li, a) for li in range(nlarge) for a in range(3)]:
+        k = "L%d" % li
+        if not R.want(k) or li in fitted:
+            continue
+        rng = R.rng(21, li) if attempt == 0 else R.rng(21, li, attempt)
+        nf = 3; ns = int(rng.integers(3, 5))
+        size = int(rng.integers(4097, 4101)) if rng.integers(3) == 0 else int(rng.integers(4101, 6001))
+        nl = int(rng.choice([1, 2, 2, 3, 3]))
+        A = gen_A(rng, nf, ns, lo=0.25, hi=2.0, bits=2)
+        kk, K = gen_K(rng, nf, kinds=("none", "vector"))
+        bk, base = gen_baseline(rng, nf, kinds=("zero", "vector"))
+        lb = np.zeros(ns); ub = dyadic(rng, 1, 3, 2, size=ns)
+        Ap, bp = apply_K(A, K, base)
+        while True:
+            mask = (rng.random((nl, ns)) < 0.7).astype(float)
+            if np.all(mask.sum(1) >= 1):
+                break
+        if rng.integers(2) == 0:
+            mask = None
+        eq = bool(rng.integers(2))
+        via = "estimator" if li % 2 == 0 else "function"
+        sub = (["omitted", "fast"] if via == "estimator" else ["fast", "fast"])[int(rng.integers(2))] if rng.integers(2) else float(rng.choice([0.0625, 0.125, 0.25]))
+        nfit = min(size, 1028) if isinstance(sub, str) else int(size * sub)
+        lbp = float(rng.choice([0.0, 0.0, 0.25])); ubp = float(rng.choice([1.0, 0.75]))
+        seed = int(rng.integers(100))
+        tkind = str(rng.choice(["per-sample mixtures", "noisy layered image"]))
+        if tkind == "per-sample mixtures":
+            # every sample is the capture of its own in-bound mixture (not a layered image at all)
+            B = (lb + dyadic(rng, 0.1, 0.9, 3, size=(size, ns)) * (ub - lb)) @ Ap.T + bp
+        else:
+            # a layered image (opacities over the whole range 0..1, also beyond the opacity bounds asked for) with multiplicative pixel noise
+            Xtrue = lb + dyadic(rng, 0.1, 0.9, 3, size=(nl, ns)) * (ub - lb)
+            B = bp + (dyadic(rng, 0, 1, 4, size=(size, nl)) @ Xtrue @ Ap.T) * dyadic(rng, 0.75, 1.25, 4, size=(size, nf))
+        c = dict(k=k, nf=nf, ns=ns, size=size, n_layers=nl, A=A, K=K, K_kind=kk, baseline=base, baseline_kind=bk, lb=lb, ub=ub, mask=mask, equal_l1=eq,
+                 subsample=sub, subsample_in_effect=nfit / size, samples_fitted_in_the_loop=nfit, lbp=lbp, ubp=ubp, seed=seed, targets=tkind, via=via,
+                 between_calls="nothing", large=True, B=B)
+        cnts = ["large instance (> 4096 samples):layers=%d" % nl, "large instance:subsample:%r (%d of the samples in the loop)" % (sub, nfit),
+                "large instance:targets:%s" % tkind, "large instance:via:%s" % via, "large instance:opacity bounds:[%s, %s]" % (lbp, ubp),
+                "large instance:samples:%s" % ("4097-4100" if size <= 4100 else "4101-6000")]
+        kw = dict(n_layers=nl, mask=mask, lbp=lbp, ubp=ubp, max_iter=15, seed=seed, equal_l1norm_constraint=eq, solver="CLARABEL")
+        if sub != "omitted":
+            kw["subsample"] = sub
+        Bg = B.copy()
+        drain()
+        if via == "estimator":
+            filt = np.hstack([np.zeros((nf, 1)), A, np.zeros((nf, 1))]); src = np.hstack([np.zeros((ns, 1)), np.eye(ns), np.zeros((ns, 1))])
+            stE, est = call(dreye.ReceptorEstimator, filt, domain=1.0, K=(1.0 if K is None else K), baseline=base, sources=src, lb=lb, ub=ub)
+            fit = (lambda kw, stE=stE, est=est: (stE, est)) if stE != "ok" else (lambda kw, est=est, Bg=Bg: call(est.fit_decomposition, Bg, **kw))
+        else:
+            fit = lambda kw, A=A, Bg=Bg, lb=lb, ub=ub, K=K, base=base: call(lsq_linear_decomposition, A, Bg, lb=lb, ub=ub, K=K, baseline=base, return_pred=True, **kw)
+        st, out = fit(kw)
+        ev = [e for e in drain() if e["event"] == "decomp_iter"]
+        st2, out2 = fit(kw)
+        drain()
+        # The interior-point solver named by this harness can give up on a cone program of this size with a numerical error, which the
+        # implementation passes on as an exception (loud; seen on the unchanged tree: NumericalError in a P-step with 1245 x 3 opacities).
+        # The property speaks about what the decomposition RETURNS: such an instance decides nothing and is drawn again (at most twice);
+        # the same request must fail the same way when repeated. Every other exception is judged as for the small cases.
+        if (not LOUD_SOLVER_FAILURE_IS_VIOLATION) and (st == "other:SolverError" or (st == "runtime" and "did not converge" in str(out))):
+            R.count("large instance:the named solver gave up loudly (%s), instance drawn again" % st)
+            if st2 != st:
+                R.failB(dict(c, first=str(out), again=(str(out2) if st2 != "ok" else "returned")), "the same request first raised %s, then %s when repeated" % (st, "returned a result" if st2 == "ok" else "raised " + st2), "C11:layers=%d:seed" % nl)
+            continue
+        fitted.add(li)
+        for key in cnts:
+            R.count(key)
+        if attempt:
+            c["drawn_again"] = attempt
+        jobs.append(dict(c=c, st=st, out=out, ev=ev, st2=st2, out2=out2, Ap=Ap, bp=bp, large=True))
     rowsP = []
     for job in jobs:
         c = job["c"]
@@ -154,8 +238,37 @@ def run(R):
         if c["subsample_in_effect"]:
             # opacities were fitted last: per sample a bounded LS in p with C = A' X^T (nf x n_layers)
             Cmat = Ap @ X.T
-            for i in range(size):
-                rowsP.append(dict(job=job, i=i, n=nl, K=None, A=Cmat, baseline=np.zeros(c["nf"]), w=np.ones(c["nf"]), b=Bprime[i], lb=np.ones(nl) * c["lbp"], ub=np.ones(nl) * c["ubp"], xhat=P[i]))
+            rows_judged = range(size)
+            if job.get("large") and P.shape == (size, nl):
+                # float screening of ALL rows (per row the best of the 3^layers active-set patterns) ranks the rows; exact judgement of the
+                # 8 rows ranked worst and of 16 random other rows
+                best = np.full(size, np.inf); xbest = np.clip(P, c["lbp"], c["ubp"])
+                for pat in itertools.product([0, 1, 2], repeat=nl):
+                    pat = np.array(pat); free = pat == 0
+                    fixed = np.where(pat == 1, c["lbp"], c["ubp"])
+                    r0 = Bprime - (Cmat[:, ~free] @ fixed[~free])[None]
+                    xs = np.tile(fixed, (size, 1))
+                    if free.any():
+                        sol = np.linalg.lstsq(Cmat[:, free], r0.T, rcond=None)[0].T
+                        okp = np.all((sol >= c["lbp"] - 1e-12) & (sol <= c["ubp"] + 1e-12), axis=1)
+                        r0 = r0 - sol @ Cmat[:, free].T
+                        xs[:, free] = sol
+                    else:
+                        okp = np.ones(size, dtype=bool)
+                    f0 = np.sum(r0 ** 2, axis=1); f0[~okp] = np.inf
+                    upd = f0 < best
+                    best[upd] = f0[upd]; xbest[upd] = np.clip(xs[upd], c["lbp"], c["ubp"])
+                job["xscreen"] = xbest
+                excess = np.sqrt(np.sum((P @ Cmat.T - Bprime) ** 2, axis=1)) - np.sqrt(best)
+                worst = [int(i) for i in np.argsort(-excess, kind="stable")[:8]]
+                rest = [int(i) for i in R.rng(22, int(c["k"][1:])).permutation(size) if int(i) not in worst][:16]
+                rows_judged = worst + rest
+                job["screen"] = dict(rows_over_tolerance=int(np.sum(excess > 1e-3 * (float(np.max(np.abs(c["B"]))) + 1))), worst_excess=float(np.max(excess)))
+                R.count("large instance:rows judged exactly", len(rows_judged)); R.count("large instance:rows screened in floating point", size)
+                atb = np.mean((np.abs(P - c["lbp"]) < 1e-6) | (np.abs(P - c["ubp"]) < 1e-6))
+                R.count("large instance:share of opacities at a bound:%s" % ("none" if atb == 0 else ("< 10%" if atb < 0.1 else ">= 10%")))
+            for i in rows_judged:
+                rowsP.append(dict(job=job, i=i, **({"xscreen": job["xscreen"][i]} if "xscreen" in job else {}), n=nl, K=None, A=Cmat, baseline=np.zeros(c["nf"]), w=np.ones(c["nf"]), b=Bprime[i], lb=np.ones(nl) * c["lbp"], ub=np.ones(nl) * c["ubp"], xhat=P[i]))
         else:
             # intensities were fitted last: || M vec(X) - r ||^2 with M[(i,c),(l,k)] = P_il A'_ck
             M = np.einsum("il,ck->iclk", P, Ap).reshape(size * c["nf"], nl * ns); r = Bprime.reshape(-1)
@@ -176,11 +289,21 @@ def run(R):
                 job["asked"] = True
     if rowsP:
         certify_rows(R, "c11", rowsP)
+        # rows of a large instance whose exact optimum was not found from the active set of dreye's answer: second search from the
+        # active set the floating-point screening found (only the exact optimum is taken over; the judged answer stays dreye's)
+        again = [r for r in rowsP if not r["kkt_ok"] and "xscreen" in r]
+        if again:
+            rows2 = [dict({a: b for a, b in r.items() if a in ("n", "K", "A", "baseline", "w", "b", "lb", "ub")}, xhat=r["xscreen"]) for r in again]
+            certify_rows(R, "c11r", rows2)
+            for r, r2 in zip(again, rows2):
+                if r2["kkt_ok"]:
+                    r["kkt_ok"] = True; r["xstar"] = r2["xstar"]; r["fstar"] = r2["fstar"]
+                    R.count("large instance:exact optimum found from the screening's active set")
     R.driver.run()
     for job in jobs:
         c = job["c"]; k = c["k"]
         nontriv = (k,) if ((c["n_layers"] >= 2 and c["equal_l1"]) or (c["mask"] is not None and np.any(c["mask"] == 0))) else None
-        R.case(c, nontriv, sample=(nontriv is not None))
+        R.case(c, nontriv, sample=(nontriv is not None and not job.get("large")))
         sig = "C11:layers=%d" % c["n_layers"]
         if job["st"] != "ok":
             R.failB(dict(c, impl_error=job["out"]), "decomposition raised %s: %s" % (job["st"], job["out"]), sig + ":raises:" + job["st"]); continue
